@@ -78,6 +78,15 @@ def main():
             for _ in range(reps): cases.append({"op": op, "l": qty(k)})
     for _ in range(60 * reps):
         cases.append({"op": "in_unit", "l": qty(), "r": unit()})
+    # + and - between the same base units written with different prefixes, in both orders: the result keeps the LEFT operand's unit
+    PREF = [([["kilo", "meter", 1]], [[None, "meter", 1]]), ([["milli", "meter", 1]], [["kilo", "meter", 1]]), ([["kilo", "gram", 1]], [[None, "gram", 1]]),
+            ([["mega", "hertz", 1]], [["kilo", "hertz", 1]]), ([["kilo", "meter", 1], [None, "second", -1]], [[None, "meter", 1], [None, "second", -1]]),
+            ([["kilo", "meter", 2]], [[None, "meter", 2]]), ([["kibi", "bit", 1]], [[None, "bit", 1]]), ([["centi", "meter", 2]], [["milli", "meter", 2]])]
+    for op in ("add", "sub"):
+        for ua, ub in PREF:
+            for k in ("int", "float", "dec"):
+                cases.append({"op": op, "l": qty(k, ua), "r": qty(k, ub)})
+                cases.append({"op": op, "l": qty(k, ub), "r": qty(k, ua)})
     # the same numeric magnitude as int, then float, then Decimal through the same root / power (type must follow the operand)
     for n in (2, 3, -2):
         for base in (4, 27, 64):
@@ -87,6 +96,12 @@ def main():
                 cases.append({"op": "pow", "l": {"t": "qty", "m": [k, str(base), "1"], "u": [[None, "second", 1]]}, "r": n})
     # renderings before arithmetic: every pair of sample units, so that a rendering that interns a wrong unit poisons later results
     prel = [(a, b) for i, a in enumerate(UNITS) for b in UNITS[i:] if len(a) == 1 and len(b) == 1 and a[0][0] is None and b[0][0] is None]
+    dl = impl("dimlaws_worker.py", {"define": [["vf currency", "VFC"]]})
+    for f in dl["fails"]:
+        if f[1].startswith("quantity"):
+            c.violation(f"new-dimension:{f[1]}", f"after Dimension.define of a new fundamental dimension, quantity arithmetic over it is wrong: {f[2:]}",
+                        {"when": f[0], "how": "harness/impl/dimlaws_worker.py: define a dimension and a unit, then ($/m^2)*(ft^2) and + with another price"})
+    c.count(["new-dimension-quantities"], nontrivial=True)
     r = impl("quantity_worker.py", {"cases": cases, "prelude": prel})
     for bu in r.get("inconsistent_units", []):
         c.violation("inconsistent-unit:" + json.dumps(bu["f"]), "a unit produced during the run reports a dimension that is not the product of its factors' dimensions",
